@@ -73,8 +73,9 @@ class HTM(htmc.HTMC):
             The htm index
         """
 
-        ra = np.atleast_1d(ra).astype('f8')
-        dec = np.atleast_1d(dec).astype('f8')
+        # flat: the C code addresses the arrays with one index
+        ra = np.atleast_1d(ra).astype('f8').ravel()
+        dec = np.atleast_1d(dec).astype('f8').ravel()
 
         if ra.size != dec.size:
             raise ValueError("ra and dec must be the same size")
@@ -684,10 +685,11 @@ class HTM(htmc.HTMC):
         else:
             verb = 0
 
-        ra1 = np.atleast_1d(ra1).astype('f8')
-        dec1 = np.atleast_1d(dec1).astype('f8')
-        ra2 = np.atleast_1d(ra2).astype('f8')
-        dec2 = np.atleast_1d(dec2).astype('f8')
+        # flat: the C code addresses the arrays with one index
+        ra1 = np.atleast_1d(ra1).astype('f8').ravel()
+        dec1 = np.atleast_1d(dec1).astype('f8').ravel()
+        ra2 = np.atleast_1d(ra2).astype('f8').ravel()
+        dec2 = np.atleast_1d(dec2).astype('f8').ravel()
 
         if ra1.size != dec1.size or ra2.size != ra2.size:
             stup = (ra1.size, dec1.size, ra2.size, dec2.size)
@@ -698,7 +700,7 @@ class HTM(htmc.HTMC):
             )
 
         if scale is not None:
-            scale = np.atleast_1d(scale).astype('f8')
+            scale = np.atleast_1d(scale).astype('f8').ravel()
             if scale.size != 1 and scale.size != ra1.size:
                 raise ValueError(
                     "scale size (%d) != 1 and"
@@ -710,7 +712,7 @@ class HTM(htmc.HTMC):
             minid = htmid2.min()
             maxid = htmid2.max()
         else:
-            htmid2 = np.atleast_1d(htmid2).astype('i8')
+            htmid2 = np.atleast_1d(htmid2).astype('i8').ravel()
             if htmid2.size != ra2.size:
                 raise ValueError(
                     "htmid2 size %d != " "ra size %d" % (htmid2.size, ra2.size)
@@ -722,6 +724,9 @@ class HTM(htmc.HTMC):
 
         if htmrev2 is None:
             hist2, htmrev2 = stat.histogram(htmid2 - minid, rev=True)
+        else:
+            # the C code reads a contiguous native int64 buffer
+            htmrev2 = np.ascontiguousarray(htmrev2, dtype='i8').ravel()
 
         minmax_ids = np.array([minid, maxid], dtype="i8")
 
